@@ -136,7 +136,8 @@ func startBroker() *broker {
 			time.Sleep(20 * time.Millisecond)
 		}
 	}()
-	cfg := &tls.Config{Certificates: []tls.Certificate{selfSigned()}}
+	// as cmd/wasp/main.go configures its listeners: a client certificate is asked for, not required
+	cfg := &tls.Config{Certificates: []tls.Certificate{selfSigned()}, ClientAuth: tls.RequestClientCert}
 	tcp, err := transport.NewTCPTransport(ctx, 0, manager)
 	if err != nil {
 		panic(err)
